@@ -231,3 +231,122 @@ pub fn describe_header(h: &sam::Header) -> HeaderDesc {
     }
     d
 }
+
+/// Describes a lazily decoded value (`sam::alignment::record::data::field::Value`), iterating array
+/// values through the `Values` trait; `Values::len()` must agree with the number of items.
+pub fn describe_lazy_value(v: &sam::alignment::record::data::field::Value<'_>) -> Result<AuxDesc, String> {
+    use sam::alignment::record::data::field::{Value as V, value::Array as A};
+    macro_rules! arr {
+        ($vals:expr, $ctor:expr, $what:expr) => {{
+            let items = $vals.iter().collect::<Result<Vec<_>, _>>().map_err(|e| format!("array {} item: {e}", $what))?;
+            if items.len() != $vals.len() {
+                return Err(format!("array {}: len() = {} but the iterator yields {} items", $what, $vals.len(), items.len()));
+            }
+            $ctor(items)
+        }};
+    }
+    Ok(match v {
+        V::Character(c) => AuxDesc::A(*c),
+        V::Int8(n) => AuxDesc::I8(*n),
+        V::UInt8(n) => AuxDesc::U8(*n),
+        V::Int16(n) => AuxDesc::I16(*n),
+        V::UInt16(n) => AuxDesc::U16(*n),
+        V::Int32(n) => AuxDesc::I32(*n),
+        V::UInt32(n) => AuxDesc::U32(*n),
+        V::Float(n) => AuxDesc::F(*n),
+        V::String(s) => AuxDesc::Z(s.to_vec()),
+        V::Hex(s) => AuxDesc::H(s.to_vec()),
+        V::Array(A::Int8(x)) => arr!(x, AuxDesc::BI8, "c"),
+        V::Array(A::UInt8(x)) => arr!(x, AuxDesc::BU8, "C"),
+        V::Array(A::Int16(x)) => arr!(x, AuxDesc::BI16, "s"),
+        V::Array(A::UInt16(x)) => arr!(x, AuxDesc::BU16, "S"),
+        V::Array(A::Int32(x)) => arr!(x, AuxDesc::BI32, "i"),
+        V::Array(A::UInt32(x)) => arr!(x, AuxDesc::BU32, "I"),
+        V::Array(A::Float(x)) => arr!(x, AuxDesc::BF, "f"),
+    })
+}
+
+/// Describes any alignment record through the `sam::alignment::Record` trait only (every accessor
+/// of the trait is called: name, flags, reference_sequence_id, alignment_start, mapping_quality,
+/// cigar [len + iter], mate_*, template_length, sequence [len, iter, get(i)], quality_scores [len,
+/// iter], data [iter, get(tag), is_empty]). Inconsistencies *between* the accessors of one field
+/// (len vs iterator, get vs iterator) are reported as `Err("<accessor>: ...")`.
+pub fn describe_alignment_record<R>(r: &R, h: &sam::Header) -> Result<RecDesc, String>
+where
+    R: sam::alignment::Record + ?Sized,
+{
+    let mut d = RecDesc { name: r.name().map(|n| n.to_vec()), ..Default::default() };
+    d.flags = u16::from(r.flags().map_err(|e| format!("flags: {e}"))?);
+    d.ref_id = r.reference_sequence_id(h).transpose().map_err(|e| format!("reference_sequence_id: {e}"))?;
+    d.pos = r.alignment_start().transpose().map_err(|e| format!("alignment_start: {e}"))?.map(|p| usize::from(p) as u64);
+    d.mapq = r.mapping_quality().transpose().map_err(|e| format!("mapping_quality: {e}"))?.map(u8::from);
+    {
+        let c = r.cigar();
+        for op in c.iter() {
+            let op = op.map_err(|e| format!("cigar: {e}"))?;
+            d.cigar.push((char_of(op.kind()), u32::try_from(op.len()).map_err(|_| format!("cigar: length {} > u32", op.len()))?));
+        }
+        if c.len() != d.cigar.len() {
+            return Err(format!("cigar: len() = {} but the iterator yields {} operations", c.len(), d.cigar.len()));
+        }
+        if c.is_empty() != d.cigar.is_empty() {
+            return Err(format!("cigar: is_empty() = {} with {} operations", c.is_empty(), d.cigar.len()));
+        }
+    }
+    d.mate_ref_id = r.mate_reference_sequence_id(h).transpose().map_err(|e| format!("mate_reference_sequence_id: {e}"))?;
+    d.mate_pos = r.mate_alignment_start().transpose().map_err(|e| format!("mate_alignment_start: {e}"))?.map(|p| usize::from(p) as u64);
+    d.tlen = r.template_length().map_err(|e| format!("template_length: {e}"))?;
+    {
+        let s = r.sequence();
+        d.seq = s.iter().collect();
+        if s.len() != d.seq.len() {
+            return Err(format!("sequence: len() = {} but the iterator yields {} bases", s.len(), d.seq.len()));
+        }
+        if s.is_empty() != d.seq.is_empty() {
+            return Err(format!("sequence: is_empty() = {} with {} bases", s.is_empty(), d.seq.len()));
+        }
+        for (i, b) in d.seq.iter().enumerate() {
+            if s.get(i) != Some(*b) {
+                return Err(format!("sequence: get({i}) = {:?} but the iterator yields {:?} (length {})", s.get(i).map(|c| c as char), *b as char, d.seq.len()));
+            }
+        }
+        if s.get(d.seq.len()).is_some() {
+            return Err(format!("sequence: get(len = {}) is not None", d.seq.len()));
+        }
+    }
+    {
+        let q = r.quality_scores();
+        let v = q.iter().collect::<Result<Vec<u8>, _>>().map_err(|e| format!("quality_scores: {e}"))?;
+        if q.len() != v.len() {
+            return Err(format!("quality_scores: len() = {} but the iterator yields {} scores", q.len(), v.len()));
+        }
+        if q.is_empty() != v.is_empty() {
+            return Err(format!("quality_scores: is_empty() = {} with {} scores", q.is_empty(), v.len()));
+        }
+        d.qual = if v.is_empty() { None } else { Some(v) };
+    }
+    {
+        let data = r.data();
+        for f in data.iter() {
+            let (t, v) = f.map_err(|e| format!("data: {e}"))?;
+            d.aux.push((*t.as_ref(), describe_lazy_value(&v).map_err(|e| format!("data: {e}"))?));
+        }
+        if data.is_empty() != d.aux.is_empty() {
+            return Err(format!("data: is_empty() = {} with {} fields", data.is_empty(), d.aux.len()));
+        }
+        for (t, v) in &d.aux {
+            let tag = Tag::new(t[0], t[1]);
+            match data.get(&tag) {
+                Some(Ok(g)) => {
+                    let g = describe_lazy_value(&g).map_err(|e| format!("data.get: {e}"))?;
+                    if format!("{g:?}") != format!("{v:?}") {
+                        return Err(format!("data: get({}) disagrees with the iterator", String::from_utf8_lossy(t)));
+                    }
+                }
+                Some(Err(e)) => return Err(format!("data: get({}) fails: {e}", String::from_utf8_lossy(t))),
+                None => return Err(format!("data: get({}) is None for a tag the iterator yields", String::from_utf8_lossy(t))),
+            }
+        }
+    }
+    Ok(d)
+}
